@@ -165,14 +165,24 @@ IdSubs == {"none", "share", "key", "w", "share+key", "share+w", "key+w", "all"}
 HasSub(idsub, x) == CASE x = "share" -> idsub \in {"share", "share+key", "share+w", "all"}
                       [] x = "key"   -> idsub \in {"key", "share+key", "key+w", "all"}
                       [] x = "w"     -> idsub \in {"w", "share+w", "key+w", "all"}
-AShareVerify(i, j, which, idsub) ==     \* share i of ct, key share j, presented with ct or with the other ciphertext;
+\* lin = <<a, b, c>>: the adversary shifts the share and the ciphertext together by public amounts,
+\*   share' = share + a PK_j + b P,   w' = w + c H(u, v)
+\* (linear relations between the operands of the check: what a product of several pairing equations, or an equation
+\* with a term dropped, would let through).  The share is then nobody's decryption share, so the property has no
+\* opinion; the outcome is the code's equation  e(H, share') = e(w', PK_j),  which holds iff a = c and b = 0.
+Lins == {<<0, 0, 0>>, <<1, 0, 1>>, <<1, 0 - 1, 1>>, <<0, 1, 0>>, <<1, 0, 0>>, <<0, 0, 1>>, <<0 - 1, 1, 0 - 1>>, <<1, 1, 1>>}
+AShareVerify(i, j, which, idsub, lin) ==     \* share i of ct, key share j, presented with ct or with the other ciphertext;
   /\ phase = "dealt"                    \* idsub: which operands the adversary replaced by the identity point
+  /\ (lin = <<0, 0, 0>> \/ (idsub = "none" /\ which = "same" /\ i = j))
   /\ LET c0 == IF which = "same" THEN ct ELSE other
-         c  == IF HasSub(idsub, "w") THEN [c0 EXCEPT !.w = GId] ELSE c0
-         sh == IF HasSub(idsub, "share") THEN GId ELSE DShare(deal, i, ct)
+         c1 == IF HasSub(idsub, "w") THEN [c0 EXCEPT !.w = GId] ELSE c0
          ks == IF HasSub(idsub, "key") THEN GId ELSE GScale(FVal0(deal, j), GenK)
+         c  == [c1 EXCEPT !.w = GAdd(c1.w, GMulInt(lin[3], Hs(TagOf(c1.scheme), HashIn(c1))))]
+         sh0 == IF HasSub(idsub, "share") THEN GId ELSE DShare(deal, i, ct)
+         sh == GAdd(sh0, GAdd(GMulInt(lin[1], ks), GMulInt(lin[2], GenK)))
          ok == ShareVerify(sh, ks, c) IN
        last' = [act |-> "ShareVerify", ct |-> CtRec(ct), t |-> deal.t, n |-> deal.n, i |-> i, j |-> j, which |-> which, idsub |-> idsub,
+                lin |-> lin,
                 expect |-> [res |-> IF ok THEN "Ok" ELSE "Err"], ideal |-> (i = j /\ which = "same" /\ idsub = "none")]
   /\ phase' = "judged" /\ UNCHANGED <<ct, other, deal>>
 
@@ -213,7 +223,7 @@ Next ==
   \/ AIsValid
   \/ (phase = "made" /\ \E k2 \in NZKeys, via \in {"sk", "key"} : ADecrypt(k2, via))
   \/ (phase = "made" /\ \E tn \in TN : ASplit(tn[1], tn[2]))
-  \/ (phase = "dealt" /\ \E i, j \in 1..deal.n, which \in {"same", "other"}, idsub \in IdSubs : AShareVerify(i, j, which, idsub))
+  \/ (phase = "dealt" /\ \E i, j \in 1..deal.n, which \in {"same", "other"}, idsub \in IdSubs, lin \in Lins : AShareVerify(i, j, which, idsub, lin))
   \/ (phase = "dealt" /\ \E es \in ShareSeqs(deal.n), route \in {"direct", "key"} : ADecryptShares(es, route))
   \/ (phase = "made" /\ ct.vn = 5 /\ \E tn \in BigTN, sh \in Shapes, route \in {"direct", "key"} : ADecryptSharesBig(tn[1], tn[2], sh, route))
   \/ AReset
@@ -241,7 +251,10 @@ WrongKey == (Judged("Decrypt") /\ ~last.rightkey) => last.expect.out # "Some"
 \* C04: an identity point in the header is never valid
 NoIdentity == ((Judged("IsValid") /\ last.idpt) => ~last.expect.valid) /\ ((Judged("Decrypt") /\ last.idpt) => last.expect.out = "None")
 \* C12: share verification is exact, for all three schemes
-ShareExact == Judged("ShareVerify") => ((last.expect.res = "Ok") <=> last.ideal)
+ShareExact == (Judged("ShareVerify") /\ last.lin = <<0, 0, 0>>) => ((last.expect.res = "Ok") <=> last.ideal)
+\* a share and a ciphertext shifted together pass exactly when the shifts are a multiple of (PK_j, H): the single equation
+\* the code checks (it does not re-check the ciphertext's own validity - IsValid does)
+ShareLinear == (Judged("ShareVerify") /\ last.lin # <<0, 0, 0>>) => ((last.expect.res = "Ok") <=> (last.lin[1] = last.lin[3] /\ last.lin[2] = 0))
 \* C04: a decryption share, key share or W that is the identity never verifies
 ShareNoIdentity == (Judged("ShareVerify") /\ last.idsub # "none") => last.expect.res = "Err"
 \* C12: >= t distinct shares decrypt to M by both routes; fewer never do
